@@ -196,9 +196,49 @@ def make_case(stream, table, hang, rng=None):
     ops = stream.ops(rng)
     if hang:
         ops.append("Z hang")
-    if full:
+    if full and any(str(v).startswith("*") for v in table.values()):
+        # frames from the proved encoder: no table, the model decodes for itself (BmpWireAbs.wire_msg)
+        ops.insert(0, "T *")
+    elif full:
         ops.insert(0, "T " + (",".join(f"{k}={v}" for k, v in used.items()) if used else "x=y"))
     return ";".join(ops)
+
+
+# per-peer headers of gens/bmpwiregen.PPHS with V = 0 (the canonical names show an IPv4 address)
+WIRE_PEERS = [0, 1, 3, 4, 5, 6, 8, 9, 10, 11, 12, 13, 14]
+
+
+def wire_stream(rng, nmsgs=5, terminate=False, tag=""):
+    """A valid session whose frames come from the PROVED encoder of Bmp/BmpWire.v (oracle bmpenc), every field varied as
+    engine bmpwire does. Returns (descriptors, {descriptor: hex}); the descriptors `*<tag><n>` only name the frames."""
+    from gens import bmpwiregen as W
+    fixed, rnd = W.pdus(rng.fork("pdus"), 6)
+    peers = rng_sample(rng, WIRE_PEERS, 2)
+    asts = [W.init_ast(rng)]
+    for p in peers:
+        asts.append(W.up_ast(rng, p, rng.chance(50)))
+    for _ in range(nmsgs):
+        p = rng.choice(peers)
+        k = rng.weighted([("R", 50), ("S", 8), ("M", 5), ("D", 12), ("U", 10), ("I", 5), ("X", 10)])
+        if k == "R":
+            asts.append(W.route_ast(rng, p, rng.choice(fixed if rng.chance(60) or not rnd else rnd), trail=rng.chance(10)))
+        elif k == "S":
+            asts.append(W.stats_ast(rng, p))
+        elif k == "M":
+            asts.append(W.mirror_ast(rng, p))
+        elif k == "D":
+            asts.append(W.down_ast(rng, p))
+        elif k == "U":
+            asts.append(W.up_ast(rng, p, rng.chance(50)))
+        elif k == "I":
+            asts.append(W.init_ast(rng))
+        else:
+            asts.append(W.route_ast(rng, rng.choice(WIRE_PEERS), fixed[0]))     # a peer that may not be up
+    if terminate:
+        asts.append(W.term_ast(rng))
+    hexes = W.encode_asts(asts)
+    descrs = [f"*{tag}{i}" for i in range(len(hexes))]
+    return descrs, dict(zip(descrs, hexes))
 
 
 def valid_stream_descrs(rng, npeers=2, nmsgs=8, terminate=False):
